@@ -3,14 +3,14 @@ import itertools
 
 from .. import impl
 from ..diff import compile_cached, _j, _t
-from ..refprolog import Cyclic, Unspecified, Budget
+from ..refprolog import Cyclic, Unspecified, Budget, canon
 from ..runner import Acc, watchdog, Hang
 from ..terms import A, C, F, V, call, conj, TRUE, FAIL, show_clause, show_program, show_term, term_vars
 from ..worlds import ImplWorld, RefWorld, facts_impl, facts_ref
 
 ID = 'C13'
 LEVEL = 'model_checking'
-RULE = ('every ordered selection of <= K of the binding operations {X = f(Y), Y = a, X = Y, Y = g(Z), Z = b} with one '
+RULE = ('(v) values of every kind: a variable bound to each of 13 values (atoms, compounds, lists, Python constants incl. 0, the empty string, None, (), 0.0) reaches assert_fact / assertz / asserta directly, inside a structure, through an alias chain, as list element, as list tail, twice; after the binding is undone the fact holds exactly that value. (s) every ordered selection of <= K of the binding operations {X = f(Y), Y = a, X = Y, Y = g(Z), Z = b} with one '
         'assertz of p(X) / p(f(Y)) / p(_) / p(g(X,Y)) / p(g(Y,Y)) (one variable twice) inserted at every position (variables bound before, after, through '
         'a chain, inside a structure), the asserting clause continuing with true / a use p(W) of the fact / fail, run '
         'to exhaustion or abandoned after its first answer; followed by every later use alone, and by every pair (one of 4 uses, then one of 4 probing uses), from {p(a), '
@@ -253,12 +253,92 @@ def describe(flavor, clause, ops, pos, ai, cont, mode, uses):
 NSH = 64
 
 
+# ---- values of every kind ------------------------------------------------------------------------
+# "A fact stored by assert holds the value its argument had at the moment of the assertion": for
+# every kind of value a variable can be bound to through the API - atoms, compounds, lists, and Python
+# constants incl. the ones that are false in a boolean context - and every way the variable reaches
+# the fact (directly, inside a structure, through an alias chain, as list element / list tail)
+def value_menu():
+    return [A('a'), A('[]'), F('f', A('b')), F('.', A('a'), A('[]')), C(0), C(1), C(-1), C(''), C('str'), C(None), C(()), C(0.0), C(2.5)]
+
+
+SHAPES = ['direct', 'in-structure', 'alias-chain', 'list-element', 'list-tail', 'twice']
+
+
+def check_value(val, shape, via):
+    """-> None | (sig, detail)"""
+    from .. import impl as _i
+    yp = _i.YP()
+    x, y = yp.variable(), yp.variable()
+    ev = val[1] if val[0] == 'c' else _i.to_engine(yp, val, {})
+    gens = []
+    if shape == 'alias-chain':
+        g = iter(_i.engine.unify(x, y))
+        next(g)
+        gens.append(g)
+        g = iter(_i.engine.unify(y, ev))
+    else:
+        g = iter(_i.engine.unify(x, ev))
+    next(g)
+    gens.append(g)
+    arg = {'direct': x, 'alias-chain': x, 'in-structure': yp.functor('h', [x, yp.atom('k')]), 'list-element': yp.listpair(x, yp.ATOM_NIL),
+           'list-tail': yp.listpair(yp.atom('k'), x), 'twice': yp.functor('h', [x, x])}[shape]
+    if via == 'assert_fact':
+        yp.assert_fact(yp.atom('val'), [arg])
+    else:
+        for _ in yp.query(via, [yp.functor('val', [arg])]):
+            pass
+    for g in reversed(gens):
+        g.close()
+    # now nothing is bound any more; the fact must still hold the value
+    r = yp.variable()
+    rows = []
+    for _ in yp.query('val', [r]):
+        rows.append(_i.observe([r]))
+    want_inner = (('c', repr(val[1])) if isinstance(val[1], (list, tuple, dict, set)) else ('c', val[1])) if val[0] == 'c' else canon([val])[0]
+    want = {'direct': want_inner, 'alias-chain': want_inner, 'in-structure': ('f', 'h', (want_inner, ('a', 'k'))), 'list-element': ('f', '.', (want_inner, ('a', '[]'))),
+            'list-tail': ('f', '.', (('a', 'k'), want_inner)), 'twice': ('f', 'h', (want_inner, want_inner))}[shape]
+    if rows != [(want,)]:
+        return ('asserted-value-lost', 'a variable bound to %r reaches %s as %s; after the binding is undone the fact reads %r, expected %r' % (val[1] if val[0] == 'c' else show_term(val), via, shape, rows, [(want,)]))
+    # and it matches exactly that value: a different constant does not match
+    other = yp.atom('something else')
+    probe = {'direct': other, 'alias-chain': other, 'in-structure': yp.functor('h', [other, yp.atom('k')]), 'list-element': yp.listpair(other, yp.ATOM_NIL),
+             'list-tail': yp.listpair(yp.atom('k'), other), 'twice': yp.functor('h', [other, other])}[shape]
+    if len(list(yp.query('val', [probe]))) != 0:
+        return ('asserted-value-became-variable', 'a variable bound to %r reaches %s as %s; the stored fact also matches the atom \'something else\' in that place' % (val[1] if val[0] == 'c' else show_term(val), via, shape))
+    return None
+
+
+def run_values(acc):
+    idx = 0
+    for vi, val in enumerate(value_menu()):
+        for shape in SHAPES:
+            for via in ('assert_fact', 'assertz', 'asserta'):
+                idx += 1
+                acc.n['evaluations'] += 1
+                acc.n['validated'] += 1
+                try:
+                    bad = check_value(val, shape, via)
+                except Exception as e:  # noqa: BLE001
+                    bad = ('values:raises:' + impl.exc_sig(e), '%r %s %s raised %r' % (val, shape, via, e))
+                if bad:
+                    acc.violation('values:' + bad[0], ('V', idx), {'value': [vi, shape, via]}, bad[1], key='value|%d|%s|%s' % (vi, shape, via))
+                    continue
+                acc.n['transitions'] += 4
+                acc.n['nontrivial'] += 1
+                acc.outcome(('value', vi, shape))
+
+
 def plan(tier):
     kmax = 3 if tier == 'quick' else 4
-    return [(kmax, k, NSH) for k in range(NSH)]
+    return [(kmax, k, NSH) for k in range(NSH)] + [('values',)]
 
 
 def run_shard(spec):
+    if spec[0] == 'values':
+        acc = Acc()
+        run_values(acc)
+        return acc
     kmax, k, n = spec
     acc = Acc()
     useqs = use_sequences()
@@ -300,6 +380,10 @@ def run_shard(spec):
 
 
 def replay(case):
+    if 'value' in case:
+        vi, shape, via = case['value']
+        bad = check_value(value_menu()[vi], shape, via)
+        return [('values:' + bad[0], bad[1])] if bad else []
     clause = clause_for(tuple(case['ops']), case['pos'], case['ai'], case['cont'])
     pytext = impl.compile_text(show_program([clause]))
     r = run_case(case['flavor'], tuple(case['ops']), case['pos'], case['ai'], case['cont'], case['mode'], tuple(case['uses']), pytext)
